@@ -94,6 +94,11 @@ func c06domain(thorough bool) []refimpl.Rec {
 		r := ctx
 		r.Seq, r.Qual, r.Cigar = "ACGT", []byte{0, 1, 92, 93}, []uint32{cig('M', 4)}
 		out = append(out, r)
+		for _, l := range []int{5000, 4100} { // records larger than a 4 KiB buffer, in SAM and in BAM
+			r := ctx
+			r.Seq, r.Qual, r.Cigar = seqOf(l), qualOf(l), []uint32{cig('M', l)}
+			out = append(out, r)
+		}
 		var auxs [][]refimpl.AuxField
 		auxs = append(auxs, nil)
 		for _, f := range auxAlphabet() {
@@ -208,6 +213,34 @@ func c06record(c *Ctx, spec refimpl.Rec) {
 				}
 			}
 		}
+		// the line reader gives the same record whatever the line end
+		htext, _ := h.MarshalText()
+		for _, in := range []string{string(htext) + lines[0] + "\n", string(htext) + lines[0], strings.ReplaceAll(string(htext), "\n", "\r\n") + lines[0] + "\r\n", string(htext) + lines[0] + "\r\n" + lines[0]} {
+			sr, err := sam.NewReader(strings.NewReader(in))
+			if err != nil {
+				c.Violate("record:reader-error:"+auxClass, fmt.Sprintf("sam.NewReader on header + %q: %v", clipStr(lines[0]), err), cas)
+				return
+			}
+			n := 0
+			for ; n < 4; n++ {
+				rec, err := sr.Read()
+				if err == io.EOF {
+					break
+				}
+				if err != nil {
+					c.Violate("record:reader-error:"+auxClass, fmt.Sprintf("sam.Reader on %q: %v", clipStr(in[len(htext):]), err), cas)
+					return
+				}
+				if b, err := rec.MarshalSAM(sam.FlagDecimal); err != nil || string(b) != lines[0] {
+					c.Violate("record:reader-view-differs:"+auxClass, fmt.Sprintf("line read by sam.Reader (input ends %q) formats differently (err %v):\n  %q\n  %q", in[len(in)-2:], err, clipStr(lines[0]), clipStr(string(b))), cas)
+					return
+				}
+			}
+			if want := strings.Count(in[len(htext):], lines[0]); n != want {
+				c.Violate("record:reader-count:"+auxClass, fmt.Sprintf("sam.Reader returned %d records for %d lines", n, want), cas)
+				return
+			}
+		}
 		// the BAM view of the record formats to the same line
 		var buf bytes.Buffer
 		w, err := bam.NewWriterLevel(&buf, h, 1, 1)
@@ -236,6 +269,83 @@ func c06record(c *Ctx, spec refimpl.Rec) {
 			c.Violate("record:bam-view-differs:"+auxClass, fmt.Sprintf("record written to BAM and read back formats differently (err %v):\n  %q\n  %q", err, clipStr(lines[0]), clipStr(string(b3))), cas)
 		}
 	})
+}
+
+// c06kept writes the whole domain into one BAM file and one SAM text, reads each back keeping
+// every record, and only then formats them: a record must not change when later ones are read.
+func c06kept(c *Ctx, dom []refimpl.Rec) {
+	cas := c06case{Kind: "kept"}
+	guard(c, "kept", cas, func() {
+		h := recHeader()
+		var want []string
+		var bbuf bytes.Buffer
+		var text strings.Builder
+		htext, _ := h.MarshalText()
+		text.Write(htext)
+		w, err := bam.NewWriterLevel(&bbuf, h, 1, 1)
+		if err != nil {
+			c.Violate("kept:bam-writer", err.Error(), cas)
+			return
+		}
+		for i := range dom {
+			sr, err := toSam(&dom[i], h)
+			if err != nil {
+				continue
+			}
+			b, err := sr.MarshalSAM(sam.FlagDecimal)
+			if err != nil || w.Write(sr) != nil {
+				continue // judged record by record above
+			}
+			want = append(want, string(b))
+			text.Write(b)
+			text.WriteByte('\n')
+		}
+		w.Close()
+		for _, view := range []string{"bam", "sam"} {
+			var recs []*sam.Record
+			var next func() (*sam.Record, error)
+			if view == "bam" {
+				br, err := bam.NewReader(bytes.NewReader(bbuf.Bytes()), 1)
+				if err != nil {
+					c.Violate("kept:bam-reader", err.Error(), cas)
+					return
+				}
+				defer br.Close()
+				next = br.Read
+			} else {
+				sr, err := sam.NewReader(strings.NewReader(text.String()))
+				if err != nil {
+					c.Violate("kept:sam-reader", err.Error(), cas)
+					return
+				}
+				next = sr.Read
+			}
+			for {
+				r, err := next()
+				if err == io.EOF {
+					break
+				}
+				if err != nil {
+					c.Violate("kept:"+view+":read-error", fmt.Sprintf("record %d of %d: %v", len(recs), len(want), err), cas)
+					return
+				}
+				recs = append(recs, r)
+			}
+			if len(recs) != len(want) {
+				c.Violate("kept:"+view+":count", fmt.Sprintf("%d records read, %d written", len(recs), len(want)), cas)
+				return
+			}
+			for i, r := range recs {
+				b, err := r.MarshalSAM(sam.FlagDecimal)
+				if err != nil || normLine(string(b)) != normLine(want[i]) {
+					c.Violate("kept:"+view+":record-changed-after-later-reads", fmt.Sprintf("record %d of the %s stream, formatted after all reads (err %v):\n  %q\nwritten as\n  %q", i, view, err, clipStr(string(b)), clipStr(want[i])), cas)
+					return
+				}
+			}
+		}
+	})
+	c.Eval(2)
+	c.AddExtra("kept_record_passes", int64(2))
 }
 
 func clipStr(s string) string {
@@ -277,7 +387,7 @@ func c06reader(c *Ctx, input string, want []string, hdrLines int) {
 }
 
 func c06(c *Ctx) {
-	c.Rule = "records: a minimal and a maximal context record, each varied one dimension at a time: names (1 char, punctuation, 254 chars), flags (6 values), reference/position (5) x mate (none, same '=', other), MAPQ, template length (0, negative, extremes), CIGAR/sequence pairs (none, consistent with soft/hard clips, insertions/deletions, all 16 base codes, 2^28-1 length op) x qualities {absent, present incl. 0 and 93}, and aux fields: every single field of the C05 alphabet, integers at every narrowing boundary (-2^31 ... 2^32-1), pairs. For each: MarshalSAM (decimal and hex flags) == formatter written from SAM v1 section 1.4/1.5 (hex digit case ignored); UnmarshalSAM of the line re-formats identically with equal field values (numeric equality for integers); the record written to BAM and read back formats to the same line. line reader: every input of 0-3 records x {LF, CRLF} x final newline {yes,no} x header {none, @HD+@SQ}: one record per line, in order, then io.EOF. Non-trivial: every record / input with at least one line."
+	c.Rule = "records: a minimal and a maximal context record, each varied one dimension at a time: names (1 char, punctuation, 254 chars), flags (6 values), reference/position (5) x mate (none, same '=', other), MAPQ, template length (0, negative, extremes), CIGAR/sequence pairs (none, consistent with soft/hard clips, insertions/deletions, all 16 base codes, 2^28-1 length op) x qualities {absent, present incl. 0 and 93}, and aux fields: every single field of the C05 alphabet, integers at every narrowing boundary (-2^31 ... 2^32-1), pairs. For each: MarshalSAM (decimal and hex flags) == formatter written from SAM v1 section 1.4/1.5 (hex digit case ignored); UnmarshalSAM of the line re-formats identically with equal field values (numeric equality for integers); the line read by sam.Reader (LF, no final newline, CRLF, two lines) formats identically; the record written to BAM and read back formats to the same line; all records written to one BAM file and one SAM text, read back and KEPT, format identically after all reads. line reader: every input of 0-3 records x {LF, CRLF} x final newline {yes,no} x header {none, @HD+@SQ}: one record per line, in order, then io.EOF. Non-trivial: every record / input with at least one line."
 	if c.Replay != nil {
 		var cas c06case
 		if err := json.Unmarshal(c.Replay, &cas); err != nil {
@@ -286,6 +396,9 @@ func c06(c *Ctx) {
 		}
 		if cas.Kind == "record" {
 			c06record(c, *cas.Rec)
+		} else if cas.Kind == "kept" {
+			c06kept(c, c06domain(true))
+			c06kept(c, c06domain(false))
 		} else {
 			var want []string
 			n := 0
@@ -309,6 +422,7 @@ func c06(c *Ctx) {
 	c.NontrivialN(int64(len(dom)))
 	c.AddExtra("records", int64(len(dom)))
 	c.Sample(c06case{Kind: "record", Rec: &dom[len(dom)/3]})
+	c06kept(c, dom)
 	// line reader
 	h := recHeader()
 	htext, _ := h.MarshalText()
